@@ -1817,6 +1817,16 @@ impl<'a> VisitMut for Rewriter<'a> {
                             }
                         }
                     }
+                    ("unwrap_or_else", 1) if self.n.map_kind.as_deref() == Some("option") => {
+                        // N8g: Option::unwrap_or_else(f) (std definition): the payload, or f() when None
+                        if let Expr::Closure(c) = strip_paren(&m.args[0]) {
+                            if c.inputs.is_empty() {
+                                let body = &c.body; let r = &m.receiver;
+                                self.n.rule("N8", sp, "Option .unwrap_or_else(closure) -> match (std definition)");
+                                replacement = Some(parse_quote!(match #r { Some(__v) => __v, None => #body }));
+                            }
+                        }
+                    }
                     ("ok_or_else", 1) => {
                         if let Expr::Closure(c) = strip_paren(&m.args[0]) {
                             if c.inputs.is_empty() {
